@@ -3,9 +3,12 @@
   Property theorems only.
 -/
 import CimbaModel.HashHeap.GuardOrder
+import CimbaModel.Sim.S3GuardOps
+import CimbaModel.Sim.S3All
 
 namespace CimbaModel.Props.C06
 open CimbaModel CimbaModel.HashHeap CimbaModel.Generated CimbaModel.HashHeap.SpecOrders
+open CimbaModel.Sim CimbaModel.Sim.S3 CimbaModel.KPQ
 
 /-- the waiting-list comparison found in the C source (regenerated on every run) is exactly the
     documented order: higher priority first, then earlier entry time, then lower key -/
@@ -27,5 +30,182 @@ theorem equal_priority_fifo (a b : HTag) (hi : a.i = b.i) (hd : a.d < b.d) : gua
 
 /- non-vacuity: the documented order on a concrete pair -/
 example : guardLt { key := 2, d := 2, i := 5 } { key := 1, d := 1, i := 1 } := by decide
+
+
+/-! ### process level: who is served, with which wake-up, and what a priority change does
+
+`frontStep w g gd` is the part of `cmb_resourceguard_signal` that concerns the guard's own waiting list
+(`guardSignal (fuel+1) w g = observers.foldl (guardSignal fuel) (frontStep w g gd)`, see `signal_is_front_then_observers`);
+`grant w g q' k` is the world in which the queue of `g` is `q'` and the wake-up (aRes, k, SUCCESS) is pending at the
+current time with the waiter's current priority (`grant_event`). `abs q` is the waiting set as a keyed priority queue
+(C02). -/
+
+theorem signal_is_front_then_observers (fuel : Nat) (w : World) (g : Nat) :
+    guardSignal (fuel + 1) w g =
+      match w.guards[g]? with
+      | none => w
+      | some gd => gd.observers.foldl (fun w o => guardSignal fuel w o) (frontStep w g gd) :=
+  guardSignal_succ fuel w g
+
+/-- the wake-up of a grant: one new event (aRes, key, SUCCESS) at the current time with the waiter's current priority;
+    clock, processes and every other component except the queue of `g` are untouched -/
+theorem grant_event (w : World) (g : Nat) (q' : HH) (k : Nat) :
+    (grant w g q' k).ev.pending =
+      { key := w.ev.counter + 1, item := ⟨aRes, k, encSig sigSuccess, 0⟩, d := w.now, i := (w.proc (k - 1)).prio } :: w.ev.pending ∧
+    (grant w g q' k).now = w.now ∧ (grant w g q' k).procs = w.procs ∧
+    (∀ g', g' ≠ g → (grant w g q' k).guards[g']? = w.guards[g']?) ∧
+    (∀ gd, w.guards[g]? = some gd → (grant w g q' k).guards[g]? = some { gd with q := q' }) := by
+  refine ⟨rfl, rfl, rfl, ?_, ?_⟩
+  · intro g' hne; simp [grant, setGuardQ_guards_get, hne]
+  · intro gd hg; simp [grant, setGuardQ_guards_get, hg]
+
+/-- `served_in_order`: on a non-empty well-formed waiting list the signal looks at exactly one waiter, the minimum `t` of
+    the waiting set under the documented order — every other waiter comes strictly after it —, and grants it
+    (dequeue + wake-up) iff its demand holds; otherwise nothing changes -/
+theorem served_in_order (w : World) (g : Nat) (gd : Guard) (hwf : WF guard_queue_check gd.q) (hpos : 0 < gd.q.count) :
+    IsMin guard_queue_check (abs gd.q) (norm (gd.q.tag 1)) ∧
+    (∀ x ∈ abs gd.q, x.key ≠ (gd.q.tag 1).key → guardLt (norm (gd.q.tag 1)) x) ∧
+    (evalDemand w (demandOf gd (gd.q.tag 1).key) = true →
+      ∃ q', WF guard_queue_check q' ∧ (abs gd.q).Perm (norm (gd.q.tag 1) :: abs q') ∧
+        frontStep w g gd = grant w g q' (gd.q.tag 1).key) ∧
+    (evalDemand w (demandOf gd (gd.q.tag 1).key) = false → frontStep w g gd = w) := by
+  obtain ⟨hmin, hfalse, htrue⟩ := (frontStep_spec w g gd hwf).2 hpos
+  refine ⟨hmin, ?_, ?_, hfalse⟩
+  · intro x hx hne
+    have hk : (norm (gd.q.tag 1)).key ≠ x.key := fun h => hne h.symm
+    rcases TotalOnKeys.total (lt := guard_queue_check) _ _ hk with h | h
+    · exact (guard_order_is_lex _ _).1 h
+    · rw [hmin.2 x hx] at h; cases h
+  · intro hd
+    obtain ⟨q', _, hwf', hperm, heq⟩ := htrue hd
+    exact ⟨q', hwf', hperm, heq⟩
+
+/-- `no_overtake`: whenever a waiter `t` is granted, every waiter that stays queued has a lower priority, or the same
+    priority and a later entry time, or the same priority and entry time and a larger key: a lower-priority waiter is
+    never served ahead of a higher-priority one that was already waiting, and equal priorities are served first come
+    first served -/
+theorem no_overtake (w : World) (g : Nat) (gd : Guard) (hwf : WF guard_queue_check gd.q) (hpos : 0 < gd.q.count)
+    (hd : evalDemand w (demandOf gd (gd.q.tag 1).key) = true) :
+    ∃ q', frontStep w g gd = grant w g q' (gd.q.tag 1).key ∧ (abs gd.q).Perm (norm (gd.q.tag 1) :: abs q') ∧
+      ∀ x ∈ abs q', x.i ≤ (gd.q.tag 1).i ∧ (x.i = (gd.q.tag 1).i → (gd.q.tag 1).d ≤ x.d) ∧
+        (x.i = (gd.q.tag 1).i → x.d = (gd.q.tag 1).d → (gd.q.tag 1).key < x.key) := by
+  obtain ⟨_, hstrict, htrue, _⟩ := served_in_order w g gd hwf hpos
+  obtain ⟨q', _, hperm, heq⟩ := htrue hd
+  refine ⟨q', heq, hperm, ?_⟩
+  intro x hx
+  have hxs : x ∈ abs gd.q := hperm.mem_iff.2 (List.mem_cons_of_mem _ hx)
+  have hnd : (keys (abs gd.q)).Nodup := hwf.keys_nodup
+  have hkp : (keys (abs gd.q)).Perm ((gd.q.tag 1).key :: keys (abs q')) := by
+    have := hperm.map (·.key); simpa [keys, norm] using this
+  have hnotin : (gd.q.tag 1).key ∉ keys (abs q') := (List.nodup_cons.1 (hkp.nodup_iff.1 hnd)).1
+  have hne : x.key ≠ (gd.q.tag 1).key := fun h => hnotin (h ▸ Event.mem_keys.2 ⟨x, hx, rfl⟩)
+  have := hstrict x hxs hne
+  unfold guardLt at this
+  simp only [norm] at this
+  omega
+
+/-- `guardWaitEnter` enqueues the caller with key p+1, entry time = the current time, priority = its current priority -/
+theorem enter_enqueues {w : World} {g : Nat} {gd : Guard} (hg : w.guards[g]? = some gd) (hwf : WF guard_queue_check gd.q)
+    (p : Pid) (d : Demand) (h64 : p + 1 < 2 ^ 64) (hfresh : p + 1 ∉ keys (abs gd.q))
+    (hroom : gd.q.count < 2 ^ gd.q.exp ∨ gd.q.exp < 31) :
+    ∃ q', WF guard_queue_check q' ∧
+      (abs q').Perm (⟨p + 1, 0, ⟨p + 1, 0, 0, 0⟩, w.now, (w.proc p).prio⟩ :: abs gd.q) ∧
+      guardWaitEnter w g p d = enterWorld w g gd q' p d ∧
+      (enterWorld w g gd q' p d).guards[g]? =
+        some { gd with q := q', demands := (p + 1, d) :: gd.demands.filter (·.1 ≠ p + 1) } ∧
+      demandOf { gd with q := q', demands := (p + 1, d) :: gd.demands.filter (·.1 ≠ p + 1) } (p + 1) = d := by
+  obtain ⟨q', _, hwf', hperm, heq⟩ := guardWaitEnter_spec hg hwf p d h64 hfresh hroom
+  have hsz : g < w.guards.size := by
+    rcases Nat.lt_or_ge g w.guards.size with h | h
+    · exact h
+    · rw [Array.getElem?_eq_none h] at hg; cases hg
+  refine ⟨q', hwf', hperm, heq, enterWorld_guard w g gd q' p d hsz, ?_⟩
+  rw [enter_demandOf]; simp
+
+/-- `cmb_process_priority_set` walks the awaits of the target (then its pool holdings); for an awaited guard it does
+    `reprioGuard` -/
+theorem prioSet_walks_awaits (w : World) (p q : Pid) (v : Int) (hq : q < w.procs.size) :
+    execCmd w p (.prioSet q v) =
+      (let w1 := w.modProc q fun y => { y with prio := v }
+       let w2 := (w1.proc q).awaits.foldl (prioAwaitStep q v) w1
+       ((w2.proc q).held.foldl (prioHeldStep q v) w2, .ret 0 "")) ∧
+    ∀ w' g, prioAwaitStep q v w' (.guard g) = reprioGuard w' q v g :=
+  ⟨prioSet_eq w p q v hq, fun _ _ => rfl⟩
+
+/-- `reprio_repositions`: the entry of a waiting process gets the new priority and keeps its entry time, key and payload;
+    every other entry is untouched; the list stays well-formed (so the next signal serves the minimum under the new
+    priorities); a process that is not queued changes nothing -/
+theorem reprio_repositions {w : World} {g : Nat} {gd : Guard} (hg : w.guards[g]? = some gd) (hwf : WF guard_queue_check gd.q)
+    (q : Pid) (v : Int) :
+    (q + 1 ∈ keys (abs gd.q) →
+      ∃ q', WF guard_queue_check q' ∧ reprioGuard w q v g = setGuardQ w g q' ∧
+        (∀ t ∈ abs gd.q, t.key = q + 1 → { t with i := v } ∈ abs q') ∧
+        (∀ t ∈ abs gd.q, t.key ≠ q + 1 → t ∈ abs q') ∧
+        (∀ t' ∈ abs q', (t'.key = q + 1 ∧ t'.i = v ∧ ∃ t ∈ abs gd.q, t' = { t with i := v }) ∨
+                        (t'.key ≠ q + 1 ∧ t' ∈ abs gd.q))) ∧
+    (q + 1 ∉ keys (abs gd.q) → reprioGuard w q v g = w) := by
+  obtain ⟨hin, hout⟩ := reprioGuard_spec hg hwf q v
+  refine ⟨?_, hout⟩
+  intro hk
+  obtain ⟨q', hwf', hperm, heq⟩ := hin hk
+  refine ⟨q', hwf', heq, ?_, ?_, ?_⟩
+  · intro t ht hkey
+    apply hperm.mem_iff.2
+    exact List.mem_map.2 ⟨t, ht, by simp [hkey]⟩
+  · intro t ht hkey
+    apply hperm.mem_iff.2
+    exact List.mem_map.2 ⟨t, ht, by simp [hkey]⟩
+  · intro t' ht'
+    obtain ⟨t, ht, rfl⟩ := List.mem_map.1 (hperm.mem_iff.1 ht')
+    by_cases hkey : t.key = q + 1
+    · left
+      have : (if t.key = q + 1 then { t with i := v } else t) = { t with i := v } := if_pos hkey
+      rw [this]; exact ⟨hkey, rfl, t, ht, rfl⟩
+    · right
+      have : (if t.key = q + 1 then { t with i := v } else t) = t := if_neg hkey
+      rw [this]; exact ⟨hkey, ht⟩
+
+/- non-vacuity: a world with a well-formed, non-empty waiting list exists, so the hypotheses of `served_in_order`,
+   `no_overtake` (given a true demand) and `reprio_repositions` are satisfiable -/
+example : ∃ (w : World) (gd : Guard), w.guards[0]? = some gd ∧ WF guard_queue_check gd.q ∧ 0 < gd.q.count ∧
+    3 ∈ keys (abs gd.q) := by
+  obtain ⟨s0, _, hwf0, habs0, _, hexp, _⟩ := init_spec (lt := guard_queue_check) 3 (by decide) (by decide)
+  have hc0 : s0.count = 0 := by rw [← abs_length, habs0]; rfl
+  obtain ⟨s1, _, hwf1, hperm, _⟩ := enqueue_abs hwf0 ⟨3, 0, 0, 0⟩ 3 0 0 (by simp) (by simp)
+    (by rw [habs0]; simp [keys]) (Or.inl (by rw [hc0]; exact two_pow_pos _))
+  refine ⟨{ guards := #[{ q := s1 }] }, { q := s1 }, rfl, hwf1, ?_, ?_⟩
+  · rw [← abs_length, hperm.length_eq]; simp [KPQ.insert]
+  · have : (⟨3, 0, ⟨3, 0, 0, 0⟩, 0, 0⟩ : HTag) ∈ abs s1 := hperm.mem_iff.2 (by simp [KPQ.insert, norm])
+    exact List.mem_map.2 ⟨_, this, rfl⟩
+
+
+/-! ### in every reachable state
+
+`AllInv` (Props/C04, Sim/S3All) is an invariant of `dispatch`; one of its clauses is that every waiting list is a
+well-formed hashheap, so the hypothesis `WF guard_queue_check gd.q` of the theorems above holds at every signal of every
+run that starts in a state satisfying `InitOkG` and the static side conditions `SideOk`. -/
+
+theorem waiting_lists_wellformed {w0 w : World} (hr : Reach w0 w) (h0 : AllInv w0) (g : Nat) (gd : Guard)
+    (hg : w.guards[g]? = some gd) : WF guard_queue_check gd.q := (h0.reach hr).g.gw g gd hg
+
+/-- `served_in_order` / `no_overtake` without the well-formedness hypothesis -/
+theorem served_in_order_reachable {w0 w : World} (hr : Reach w0 w) (h0 : AllInv w0) (g : Nat) (gd : Guard)
+    (hg : w.guards[g]? = some gd) (hpos : 0 < gd.q.count) :
+    IsMin guard_queue_check (abs gd.q) (norm (gd.q.tag 1)) ∧
+    (∀ x ∈ abs gd.q, x.key ≠ (gd.q.tag 1).key → guardLt (norm (gd.q.tag 1)) x) ∧
+    (evalDemand w (demandOf gd (gd.q.tag 1).key) = true →
+      ∃ q', frontStep w g gd = grant w g q' (gd.q.tag 1).key ∧ (abs gd.q).Perm (norm (gd.q.tag 1) :: abs q') ∧
+        ∀ x ∈ abs q', x.i ≤ (gd.q.tag 1).i ∧ (x.i = (gd.q.tag 1).i → (gd.q.tag 1).d ≤ x.d) ∧
+          (x.i = (gd.q.tag 1).i → x.d = (gd.q.tag 1).d → (gd.q.tag 1).key < x.key)) ∧
+    (evalDemand w (demandOf gd (gd.q.tag 1).key) = false → frontStep w g gd = w) := by
+  have hwf := waiting_lists_wellformed hr h0 g gd hg
+  obtain ⟨h1, h2, _, h4⟩ := served_in_order w g gd hwf hpos
+  exact ⟨h1, h2, fun hd => no_overtake w g gd hwf hpos hd, h4⟩
+
+/-- who is in a waiting list (I_guard): a queued key is `p + 1` for an existing process `p` that awaits exactly this
+    guard and is suspended in a wait on it -/
+theorem queued_is_waiting {w0 w : World} (hr : Reach w0 w) (h0 : AllInv w0) {g k : Nat} (hq : queued w g k) :
+    ∃ p f, k = p + 1 ∧ p < w.procs.size ∧ Await.guard g ∈ (w.proc p).awaits ∧ guardAw w p = [.guard g] ∧
+      (w.proc p).blocked = some f ∧ FrameOn w f g := (h0.reach hr).g.queued_means hq
 
 end CimbaModel.Props.C06
